@@ -71,13 +71,21 @@ def run(run, binfo):
                     c = base_case(rules=rules, default=d, rule=('name', q), creds={'roles': roles})
                     # how the rule set reaches the enforcer must not matter: a dict, or a Rules object
                     # carrying the same / another / no default rule of its own
-                    c['carrier'] = ['rules_same', 'dict', 'rules_other', 'rules_none'][len(cases) % 4]
+                    c['carrier'] = ['rules_same', 'dict', 'rules_other', 'rules_none', 'rules_same', 'rules_shared',
+                                    'dict', 'rules_other'][len(cases) % 8]
                     c['carrier_default'] = 'a' if (len(cases) // 4) % 2 else 'b'
                     if c['carrier'] == 'rules_same' and (len(cases) // 4) % 2:
                         c['prehistory'] = {n: FLIP[b] for n, b in rules.items()}
                     if len(cases) % 5 == 2:
                         # no policy file at all: the rules come from a policy directory only
                         c['from_dir'] = True
+                    elif len(cases) % 5 == 4:
+                        c['from_file'] = True
+                    if c.get('from_dir') or c.get('from_file'):
+                        # the service also registered a default the files do not mention: loading merges it in
+                        c['registered'] = {'zreg': None}
+                        c['registered_check'] = {'zreg': 'role:nobody'}
+                        c['model_rules'] = dict(rules, zreg='role:nobody')
                     # deny is False, or the not-authorized exception when the caller asked for one
                     c['do_raise'] = (len(cases) // 3) % 2 == 1
                     cases.append(c)
@@ -96,7 +104,7 @@ def run(run, binfo):
         run.evaluations += 1
         if not agree(mres, ires):
             bad_corr.append((c, mres, ires))
-        want = spec_decision(c['rules'], c['default'], c['rule'][1], c['creds']['roles'])
+        want = spec_decision(c.get('model_rules', c['rules']), c['default'], c['rule'][1], c['creds']['roles'])
         if want is None:
             run.count('cyclic_skipped')
             continue
